@@ -189,6 +189,10 @@ def check(run: Run) -> None:
     if stores_:
         v = strip_sites(fr.term_of(stores_[0].value))
         ok_v = v[0] == "app" and len(v[2]) == 3 and v[2][1] == ("param", rf.pos_params[0]) and v[2][2] == ("param", rf.pos_params[1])
+        if not ok_v and v[0] == "new" and isinstance(v[1], str) and v[1].endswith("_FuncAdlFunction"):
+            # the record written in class form: the same three fields, by name
+            d_ = dict(v[2])
+            ok_v = d_.get("function") == ("param", rf.pos_params[0]) and d_.get("processor_function") == ("param", rf.pos_params[1])
         run.check(ok_v, "C09.R7", rf, stores_[0], "the entry holds the function and its processor", f"the registry entry is {show(v)[:100]}")
     from .c07 import check_env_merge
 
